@@ -6,7 +6,7 @@ Statements:   ('expr', e) ('assign', name, e)
               ('if', [(cond, body), ...], else_body|None)       first pair is the `if`, later pairs are `elif`
               ('while', cond, body) ('for', var, idx|None, e, body)
               ('break',) ('continue',) ('return', e|None)
-              ('func', name, params, last_arg_array, body)
+              ('func', name, params, last_arg_array, body)   ('comment', text)  - a comment line, no statement
 A body is a list of statements.
 """
 
@@ -92,6 +92,8 @@ def lines_of(body, depth=0):
             out.append(pad + 'continue')
         elif k == 'return':
             out.append(pad + 'return' + (' ' + expr_text(s[1]) if s[1] is not None else ''))
+        elif k == 'comment':
+            out.append(pad + '# ' + s[1])
         elif k == 'func':
             _, name, params, last, sub = s
             out.append(pad + 'function ' + name + '(' + ', '.join(params) + ('...' if last else '') + '):')
